@@ -8,6 +8,7 @@ import (
 	"golang.org/x/tools/go/ssa"
 
 	. "htcheck/internal/core"
+	"htcheck/internal/zone"
 )
 
 // c17NoListAliasing: a list built by appending to a RE-SLICE of another object's list (the in-place filter idiom
@@ -104,4 +105,37 @@ func decoderErrorSticky(c *Ctx, rule string) {
 		}
 	}
 	c.Floor(rule, 2, "the failing arms of the read primitives and of Seek")
+}
+
+// c17EncoderWholeValue: the IPP reply is produced by the encoder; what it announces in a length prefix it must also write.
+// copy() silently transfers fewer bytes when its destination is shorter than its source, so wherever the encoder
+// assembles a value in a scratch buffer the copy must be proved to take the whole source (len(src) <= len(dst) for every
+// input); otherwise a value of one particular length is cut short behind a prefix that still announces it in full, and
+// every field after it is read from the wrong offset.
+func c17EncoderWholeValue(c *Ctx) {
+	p := c.P
+	const rule = "encoder-writes-whole-value"
+	n := 0
+	for _, fn := range p.FuncsIn(decRel) {
+		if strings.HasSuffix(p.Fset.Position(fn.Pos()).Filename, "_test.go") {
+			continue
+		}
+		pr := zone.New(fn)
+		for _, call := range Calls(fn) {
+			cv, ok := call.(*ssa.Call)
+			if !ok {
+				continue
+			}
+			o, ok := pr.CopyObligation(cv)
+			if !ok {
+				continue
+			}
+			n++
+			good, why := pr.Prove(o, cv)
+			c.Check(good, rule, fmt.Sprintf("%s copy #%d", shortFn(fn), n), p.InstrPos(cv), "the destination is at least as long as the source", "copy(…) here can transfer fewer bytes than its source holds ("+why+"): for values of that length the encoder writes a shorter value than its length prefix announces, silently, and everything after it is misaligned")
+		}
+	}
+	if n == 0 {
+		c.Ok(rule, "services/decoder", "-", "no value is assembled through copy() into a bounded buffer")
+	}
 }
